@@ -157,8 +157,15 @@ def run(ctx):
             if not connected:
                 report("reconnect-failed", "the client did not report Connected after the scripted reconnect: states %s" % o["states"], o)
                 continue
-            if not alive:
-                report("failed-recreate-connected", "the client reports Connected but the subscription that was active is gone (a failed recreateSubscription is forgotten; `action = recreateSession` is overwritten by `action = none`)", o)
+            # history class "recreateSubscription fails part-way" (CreateSubscription or CreateMonitoredItems refused while
+            # recreating): monitor() ignores the error (`action = recreateSession; continue` only continues the range loop,
+            # then `action = none`), reports Connected and does not count the subscription in activeSubs
+            recreate_failed = o.get("creates", 0) > 0 and (p.get("create_ok", 0) == 0 or p.get("items_ok", 0) == 0)
+            if recreate_failed and (not alive or not resumed):
+                report("failed-recreate-connected", "recreateSubscription failed part-way (create_ok=%s items_ok=%s) and the client reports Connected: subscription %s, publishing resumed=%s" % (
+                    p.get("create_ok"), p.get("items_ok"), "gone" if not alive else "registered as %s without its items" % o["subs"], resumed), o)
+            elif not alive:
+                report("subscription-lost", "the client reports Connected but the subscription that was active is gone although no recreate step failed", o)
             elif not resumed:
                 if p.get("session_lost", 0) == 0:
                     report("session-kept-not-resumed", "session kept across the reconnect: nothing is republished, activeSubs = 0, the publish loop paused at the disconnect is never resumed", o)
